@@ -402,7 +402,7 @@ package ecs
 
 //@ func componentRegistry.registerComponent(r, tp, totalBits) (id)
 //@   props C16
-//@   requires regInv(r) && tp != nil && !mapHas(r.Components, tp.val) && 0 < totalBits && totalBits <= MaskTotalBits
+//@   requires regInv(r) && !mapHas(r.Components, tp.val) && 0 < totalBits && totalBits <= MaskTotalBits
 //@   panics_if regCount(r) >= totalBits
 //@   flag panic_clean
 //@   ensures regInv(r)
@@ -419,7 +419,7 @@ package ecs
 
 //@ func componentRegistry.ComponentID(r, tp) (id, isNew)
 //@   props C16
-//@   requires regInv(r) && tp != nil
+//@   requires regInv(r)
 //@   panics_if !mapHas(r.Components, tp.val) && regCount(r) >= MaskTotalBits
 //@   flag panic_clean
 //@   ensures regInv(r)
@@ -460,7 +460,7 @@ package ecs
 
 //@ func World.componentID(w, tp) (r)
 //@   props C16 C09
-//@   requires regInv(&w.registry) && tp != nil
+//@   requires regInv(&w.registry)
 //@   panics_if !mapHas(w.registry.Components, tp.val) && (isLocked(w) || regCount(&w.registry) >= MaskTotalBits)
 //@   flag panic_restores
 //@   on_panic regSame(&w.registry) && regInv(&w.registry)
@@ -477,3 +477,138 @@ package ecs
 // The callback Cache.getArchetypes is always World.getArchetypes (installed by World.Cache()); it only reads the world.
 //@ iface Cache.getArchetypes(c, f) (r)
 //@   flag trusted allocates
+
+// ---------------------------------------------------------------------------------------------
+// C20 — resources
+// ---------------------------------------------------------------------------------------------
+
+//@ pred resInv(r *Resources) bool = len(r.resources) == MaskTotalBits
+
+//@ func Resources.Add(r, id, res)
+//@   props C20 C10
+//@   requires resInv(r) && validID(id.id)
+//@   panics_if r.resources[int(id.id)] != nil
+//@   flag panic_clean
+//@   ensures r.resources[int(id.id)] == res
+//@   modifies r.resources[int(id.id)]
+
+//@ func Resources.Remove(r, id)
+//@   props C20 C10
+//@   requires resInv(r) && validID(id.id)
+//@   panics_if r.resources[int(id.id)] == nil
+//@   flag panic_clean
+//@   ensures r.resources[int(id.id)] == nil
+//@   modifies r.resources[int(id.id)]
+
+//@ func Resources.Get(r, id) (res)
+//@   props C20
+//@   requires resInv(r) && validID(id.id)
+//@   ensures res == r.resources[int(id.id)]
+
+//@ func Resources.Has(r, id) (b)
+//@   props C20
+//@   requires resInv(r) && validID(id.id)
+//@   ensures b == (r.resources[int(id.id)] != nil)
+
+//@ func Resources.reset(r)
+//@   props C20 C15
+//@   requires resInv(r)
+//@   ensures forall i int :: {r.resources[i]} 0 <= i && i < MaskTotalBits ==> r.resources[i] == nil
+//@   modifies r.resources[ALL]
+//@   loop #1
+//@   inv forall i int :: {r.resources[i]} 0 <= i && i < $i ==> r.resources[i] == nil
+
+//@ func newResources() (r)
+//@   props C20
+//@   ensures len(r.resources) == MaskTotalBits
+//@   ensures forall i int :: {r.resources[i]} 0 <= i && i < MaskTotalBits ==> r.resources[i] == nil
+//@   ensures r.registry.Components != nil && len(r.registry.Components) == 0 && len(r.registry.IDs) == 0
+
+//@ func World.Resources(w) (r)
+//@   props C20
+//@   ensures r == &w.resources
+
+// resource IDs come from the resource registry, a different object from the component registry
+//@ func World.resourceID(w, tp) (r)
+//@   props C20 C16
+//@   requires regInv(&w.resources.registry)
+//@   panics_if !mapHas(w.resources.registry.Components, tp.val) && regCount(&w.resources.registry) >= MaskTotalBits
+//@   flag panic_clean
+//@   ensures regInv(&w.resources.registry)
+//@   ensures old(mapHas(w.resources.registry.Components, tp.val)) ==> r.id == old(w.resources.registry.Components[tp.val]) && regSame(&w.resources.registry)
+//@   ensures !old(mapHas(w.resources.registry.Components, tp.val)) ==> int(r.id) == old(regCount(&w.resources.registry))
+//@   ensures mapHas(w.resources.registry.Components, tp.val) && w.resources.registry.Components[tp.val] == r.id
+//@   modifies w.resources.registry.Components[ALL], w.resources.registry.Types[ALL], w.resources.registry.Used.bits, w.resources.registry.IsRelation.bits, w.resources.registry.IDs, w.resources.registry.IDs[ALL]
+
+//@ func ResourceTypeID(w, tp) (r)
+//@   requires w != nil
+//@   props C20 C16
+//@   requires regInv(&w.resources.registry)
+//@   panics_if !mapHas(w.resources.registry.Components, tp.val) && regCount(&w.resources.registry) >= MaskTotalBits
+//@   ensures mapHas(w.resources.registry.Components, tp.val) && w.resources.registry.Components[tp.val] == r.id
+//@   ensures old(mapHas(w.resources.registry.Components, tp.val)) ==> r.id == old(w.resources.registry.Components[tp.val])
+//@   modifies w.resources.registry.Components[ALL], w.resources.registry.Types[ALL], w.resources.registry.Used.bits, w.resources.registry.IsRelation.bits, w.resources.registry.IDs, w.resources.registry.IDs[ALL]
+
+//@ func ResourceType(w, id) (tp, ok)
+//@   requires w != nil
+//@   props C20 C16
+//@   requires regInv(&w.resources.registry) && validID(id.id)
+//@   ensures ok == (int(id.id) < regCount(&w.resources.registry))
+//@   ensures tp == w.resources.registry.Types[int(id.id)]
+
+//@ func ResourceIDs(w) (ids)
+//@   requires w != nil
+//@   props C20 C16
+//@   requires regInv(&w.resources.registry)
+//@   ensures len(ids) == regCount(&w.resources.registry)
+//@   ensures forall k int :: {ids[k]} 0 <= k && k < len(ids) ==> int(ids[k].id) == k
+//@   loop #1
+//@   inv forall k int :: {ids[k]} 0 <= k && k < $i ==> int(ids[k].id) == k
+
+// ---- C16: public registry functions -----------------------------------------------------------
+
+//@ func TypeID(w, tp) (r)
+//@   requires w != nil
+//@   props C16
+//@   requires regInv(&w.registry)
+//@   panics_if !mapHas(w.registry.Components, tp.val) && (isLocked(w) || regCount(&w.registry) >= MaskTotalBits)
+//@   ensures regInv(&w.registry)
+//@   ensures old(mapHas(w.registry.Components, tp.val)) ==> r.id == old(w.registry.Components[tp.val]) && regSame(&w.registry)
+//@   ensures !old(mapHas(w.registry.Components, tp.val)) ==> int(r.id) == old(regCount(&w.registry)) && specBit(w.registry.IsRelation, r.id) == isRelationType(tp)
+//@   ensures mapHas(w.registry.Components, tp.val) && w.registry.Components[tp.val] == r.id
+//@   modifies w.registry.Components[ALL], w.registry.Types[ALL], w.registry.Used.bits, w.registry.IsRelation.bits, w.registry.IDs, w.registry.IDs[ALL], all(archetypeData.layouts), all(archetypeAccess.basePointer)
+
+//@ func ComponentIDs(w) (ids)
+//@   requires w != nil
+//@   props C16
+//@   requires regInv(&w.registry)
+//@   ensures len(ids) == regCount(&w.registry)
+//@   ensures forall k int :: {ids[k]} 0 <= k && k < len(ids) ==> int(ids[k].id) == k
+//@   loop #1
+//@   inv forall k int :: {ids[k]} 0 <= k && k < $i ==> int(ids[k].id) == k
+
+//@ func ComponentInfo(w, id) (info, ok)
+//@   requires w != nil
+//@   props C16
+//@   requires regInv(&w.registry) && validID(id.id)
+//@   ensures ok == (int(id.id) < regCount(&w.registry))
+//@   ensures ok ==> info.ID == id && info.Type == w.registry.Types[int(id.id)] && info.IsRelation == specBit(w.registry.IsRelation, id.id)
+
+// The slot index is computed inside (reflection); the typed-slot convention (a slot registered for T holds nil or a *T)
+// cannot be named here, so the run-time checks of this wrapper are assumed (flag nosafe) and only the
+// "nothing stored => nil" half of the result is stated.
+//@ func GetResource(w) (r)
+//@   props C20
+//@   requires w != nil && resInv(&w.resources) && regInv(&w.resources.registry)
+//@   flag may_panic nosafe
+//@   ensures (forall i int :: {w.resources.resources[i]} 0 <= i && i < MaskTotalBits ==> old(w.resources.resources[i]) == nil) ==> r == nil
+//@   ensures forall i int :: {w.resources.resources[i]} 0 <= i && i < MaskTotalBits ==> w.resources.resources[i] == old(w.resources.resources[i])
+//@   modifies w.resources.registry.Components[ALL], w.resources.registry.Types[ALL], w.resources.registry.Used.bits, w.resources.registry.IsRelation.bits, w.resources.registry.IDs, w.resources.registry.IDs[ALL]
+
+//@ func AddResource(w, res) (id)
+//@   props C20
+//@   requires w != nil && resInv(&w.resources) && regInv(&w.resources.registry)
+//@   flag may_panic
+//@   ensures w.resources.resources[int(id.id)].val == ref(res) && w.resources.resources[int(id.id)] != nil
+//@   ensures forall i int :: {w.resources.resources[i]} 0 <= i && i < MaskTotalBits && i != int(id.id) ==> w.resources.resources[i] == old(w.resources.resources[i])
+//@   modifies w.resources.resources[ALL], w.resources.registry.Components[ALL], w.resources.registry.Types[ALL], w.resources.registry.Used.bits, w.resources.registry.IsRelation.bits, w.resources.registry.IDs, w.resources.registry.IDs[ALL]
